@@ -392,6 +392,19 @@ func runC13(c *Ctx) {
 			r := MustPrecede(f, p.Deep(stp.site), func(in ssa.Instruction) bool { return isOneOf(in, adds) }, nil)
 			c.Check(r.OK && len(adds) > 0, r6, p.FuncKey(f)+":"+stp.name, FirstPos(p, f), "performed before the process is added", "scale-up adds a replica without the loader step '"+stp.name+"' (the new replica differs from what a fresh load would produce)")
 		}
+		// each added replica is decoded afresh: decode, render and add belong to the same loop iteration
+		for _, ad := range adds {
+			lp := InnermostLoopOf(ad)
+			okIter := lp != nil
+			if lp != nil {
+				for _, stp := range steps {
+					if !lp.EveryIterationPasses(func(x ssa.Instruction) bool { return p.Deep(stp.site).MustAt(x) }) {
+						okIter = false
+					}
+				}
+			}
+			c.Check(okIter, r6, p.FuncKey(f)+":fresh-config-per-replica", p.InstrPos(ad), "snapshot decode, render and assign happen in every iteration that adds a replica", "the configuration of the added replicas is decoded/rendered once outside the loop and shared: probes and variables rendered for the first added replica are inherited by the others")
+		}
 		for _, st := range []Site{StoreTo("ReplicaNum", s.FReplicaNum), StoreTo("Replicas", s.FReplicas), StoreTo("ReplicaName", s.FReplicaName)} {
 			r := MustPrecede(f, p.Deep(st), func(in ssa.Instruction) bool { return isOneOf(in, renders) }, nil)
 			c.Check(r.OK, r4, p.FuncKey(f)+":before-render:"+st.Name, FirstPos(p, f), "set before rendering", st.Name+" is not set before the templates are rendered (PC_REPLICA_NUM in templates would be wrong)")
@@ -469,6 +482,7 @@ func runC13(c *Ctx) {
 	if n7 == 0 {
 		c.Bad(r7, "none", "", "no removal function stops the running instance")
 	}
+	s.checkRemovalStopsRegistered(c, r7)
 
 	// ------------------------------------------------------------------ (8)
 	r8 := c.Rule("replica-count-updated", "in the scale operation every path from the scale-up/scale-down call to a success return passes the function that stores Replicas = scale into every replica of the process and renames those whose replica name changes")
@@ -558,4 +572,52 @@ func isRangeValueBase(v ssa.Value, field *types.Var) bool {
 		}
 	}
 	return false
+}
+
+// checkRemovalStopsRegistered (C13, C14): in the removal function, whenever an
+// instance is registered (lookup non-nil) the stop is reached on every path,
+// whatever state the instance is in.
+func (s *Sel) checkRemovalStopsRegistered(c *Ctx, rule string) {
+	p := c.P
+	stopDeep := p.Deep(s.stopCoreCall(true, false))
+	lookupRun := p.Deep(MapLookupOn("lookup runningProcesses", s.FRunning))
+	for _, f := range p.FuncsOfPkg("app") {
+		if !s.IsRunnerMethod(f) || f.Parent() != nil {
+			continue
+		}
+		if len(DirectSites(f, MapDeleteOn("d", s.FProcesses))) == 0 || len(DirectSites(f, MapUpdateOn("w", s.FProcesses))) > 0 {
+			continue
+		}
+		for _, b := range f.Blocks {
+			ifi := IfOf(b)
+			if ifi == nil {
+				continue
+			}
+			cmp, ok := CondCmp(ifi.Cond)
+			if !ok || (cmp.Op != token.NEQ && cmp.Op != token.EQL) {
+				continue
+			}
+			var subj ssa.Value
+			if IsNilConst(cmp.Y) {
+				subj = cmp.X
+			} else if IsNilConst(cmp.X) {
+				subj = cmp.Y
+			} else {
+				continue
+			}
+			call, isCall := stripConv(subj).(*ssa.Call)
+			if !isCall || !isPtrTo(call.Type(), s.Process) || !lookupRun.MayAt(call) {
+				continue
+			}
+			nn := 0
+			if cmp.Op == token.EQL {
+				nn = 1
+			}
+			r := MustFollow([]Pt{{b.Succs[nn], 0}}, p.Deep(Site{Name: "stop", Instr: func(in ssa.Instruction) bool {
+				cc, isC := in.(*ssa.Call)
+				return isC && stopDeep.MayAt(cc)
+			}}), nil)
+			c.PathCheck(r, rule, p.FuncKey(f)+":registered-always-stopped", p.InstrPos(ifi), "a registered instance is always stopped", "the removal skips the stop for a registered instance in some states (e.g. restart back-off or pending): its supervision loop survives the removal and launches the command again, unlisted")
+		}
+	}
 }
